@@ -23,10 +23,14 @@ RECURSIVE HexN(_, _)
 HexN(v, n) == IF n = 0 THEN <<>> ELSE HexN(v \div 16, n - 1) \o <<HexD[(v % 16) + 1]>>
 
 \* the target alphabet and the code point of each character (for hex escapes)
-Code(c) == IF c = "a" THEN 97 ELSE IF c = " " THEN 32 ELSE IF c = "\n" THEN 10 ELSE IF c = "'" THEN 39 ELSE IF c = "\"" THEN 34
-           ELSE IF c = "\\" THEN 92 ELSE IF c = ":" THEN 58 ELSE IF c = "#" THEN 35 ELSE IF c = "\t" THEN 9 ELSE IF c = "<u233>" THEN 233
-           ELSE IF c = "-" THEN 45 ELSE IF c = "b" THEN 98 ELSE IF c = "<u128512>" THEN 128512 ELSE IF c = "," THEN 44 ELSE IF c = "[" THEN 91
-           ELSE IF c = "<u133>" THEN 133 ELSE IF c = "<u0>" THEN 0 ELSE IF c = "<u27>" THEN 27 ELSE 63
+Ascii == <<" ", "!", "\"", "#", "$", "%", "&", "'", "(", ")", "*", "+", ",", "-", ".", "/", "0", "1", "2", "3", "4", "5", "6", "7", "8", "9", ":", ";", "<", "=", ">", "?", "@", "A", "B", "C", "D", "E", "F", "G", "H", "I", "J", "K", "L", "M", "N", "O", "P", "Q", "R", "S", "T", "U", "V", "W", "X", "Y", "Z", "[", "\\", "]", "^", "_", "`", "a", "b", "c", "d", "e", "f", "g", "h", "i", "j", "k", "l", "m", "n", "o", "p", "q", "r", "s", "t", "u", "v", "w", "x", "y", "z", "{", "|", "}", "~">>
+RECURSIVE AsciiIdx(_, _)
+AsciiIdx(c, i) == IF i > Len(Ascii) THEN 0 ELSE IF Ascii[i] = c THEN i ELSE AsciiIdx(c, i + 1)
+Code(c) == IF c = "\n" THEN 10 ELSE IF c = "\t" THEN 9 ELSE IF c = "<u233>" THEN 233 ELSE IF c = "<u128512>" THEN 128512
+           ELSE IF c = "<u133>" THEN 133 ELSE IF c = "<u0>" THEN 0 ELSE IF c = "<u27>" THEN 27
+           ELSE IF c = "<u7>" THEN 7 ELSE IF c = "<u8>" THEN 8 ELSE IF c = "<u11>" THEN 11 ELSE IF c = "<u12>" THEN 12 ELSE IF c = "\r" THEN 13
+           ELSE IF c = "<u160>" THEN 160 ELSE IF c = "<u8232>" THEN 8232 ELSE IF c = "<u8233>" THEN 8233
+           ELSE 31 + AsciiIdx(c, 1)            \* printable ASCII
 
 \* contexts: [name, key (must stay on one line), flow (flow indicators end a plain scalar), n (indentation of the parent block)]
 Ctx(name) ==
@@ -66,7 +70,7 @@ Foldable(t, i) == t[i] = " " /\ i > 1 /\ i < Len(t) /\ ~IsBlank(t[i - 1]) /\ ~Is
 NlPlainOK(t) == \A i \in 1..Len(t) : IsNl(t[i]) => ((i = 1 \/ ~IsBlank(t[i - 1])) /\ (i = Len(t) \/ ~IsBlank(t[i + 1])))
 Indicators == {"-", "?", ":", ",", "[", "]", "{", "}", "#", "&", "*", "!", "|", ">", "'", "\"", "%", "@", "`"}
 FlowInd == {",", "[", "]", "{", "}"}
-Printable(c) == c \notin {"\n", "<u0>", "<u27>", "<u133>"}      \* may be written literally inside quotes
+Printable(c) == c \notin {"\n", "<u0>", "<u27>", "<u133>", "<u7>", "<u8>", "<u11>", "<u12>", "\r"}      \* may be written literally inside quotes
 PlainOK(t, ctx) ==
   /\ t # <<>>
   /\ ~IsBlank(t[1]) /\ ~IsNl(t[1]) /\ ~IsBlank(t[Len(t)]) /\ ~IsNl(t[Len(t)])
@@ -92,13 +96,17 @@ RECURSIVE NlRun(_, _)
 NlRun(t, i) == IF i <= Len(t) /\ IsNl(t[i]) THEN 1 + NlRun(t, i + 1) ELSE 0
 Breaks(k, ctx, ci, pad) == Spc(pad) \o [j \in 1..(k + 1) |-> "\n"] \o Spc(ctx.n + 1 + ci)
 
-\* double-quoted escape forms of a character: 1 = short, 2 = \x (or \u when > 255), 3 = \u (or \U), 4 = \U
+\* double-quoted escape forms of a character: 1 = short (the complete table of section 5.7), 2 = \x (or \u when > 255), 3 = \u (or \U), 4 = \U
 Short(c) == IF c = "\t" THEN <<"\\", "t">> ELSE IF c = "\n" THEN <<"\\", "n">> ELSE IF c = "\"" THEN <<"\\", "\"">> ELSE IF c = "\\" THEN <<"\\", "\\">>
             ELSE IF c = " " THEN <<"\\", " ">> ELSE IF c = "<u0>" THEN <<"\\", "0">> ELSE IF c = "<u27>" THEN <<"\\", "e">> ELSE IF c = "<u133>" THEN <<"\\", "N">>
+            ELSE IF c = "<u7>" THEN <<"\\", "a">> ELSE IF c = "<u8>" THEN <<"\\", "b">> ELSE IF c = "<u11>" THEN <<"\\", "v">> ELSE IF c = "<u12>" THEN <<"\\", "f">>
+            ELSE IF c = "\r" THEN <<"\\", "r">> ELSE IF c = "/" THEN <<"\\", "/">> ELSE IF c = "<u160>" THEN <<"\\", "_">>
+            ELSE IF c = "<u8232>" THEN <<"\\", "L">> ELSE IF c = "<u8233>" THEN <<"\\", "P">>
             ELSE IF c = "a" THEN <<"\\", "x", "6", "1">> ELSE <<>>
 Esc(c, form) ==
   LET v == Code(c) IN
   IF form = 1 /\ Short(c) # <<>> THEN Short(c)
+  ELSE IF form = 4 /\ c = "\t" THEN <<"\\", "\t">>                   \* the second short form of a tab: backslash, literal tab
   ELSE IF form <= 2 /\ v < 256 THEN <<"\\", "x">> \o HexN(v, 2)
   ELSE IF form <= 3 /\ v < 65536 THEN <<"\\", "u">> \o HexN(v, 4)
   ELSE <<"\\", "U">> \o HexN(v, 8)
@@ -120,7 +128,8 @@ Body(t, i, style, ch, eb, ctx, ci, pad) ==
           ELSE IF IsNl(c) /\ NlRunStart(t, i) /\ multi /\ style = "double" /\ ch[i] = 2
                   /\ i + NlRun(t, i) <= Len(t) /\ ~IsBlank(t[i + NlRun(t, i)])
           THEN LET k == NlRun(t, i) IN <<"\\", "\n">> \o [j \in 1..k |-> "\n"] \o Spc(ctx.n + 1 + ci) \o Body(t, i + k, style, ch, eb, ctx, ci, pad)
-          ELSE IF c = " " /\ Foldable(t, i) /\ multi /\ ch[i] = 1 /\ (style = "double" \/ ~(t[i + 1] \in Indicators))
+          \* (a plain continuation line must not start with an indicator; inside quotes every character is content)
+          ELSE IF c = " " /\ Foldable(t, i) /\ multi /\ ch[i] = 1 /\ (style # "plain" \/ ~(t[i + 1] \in Indicators))
           THEN Brk(ctx, ci, pad) \o Body(t, i + 1, style, ch, eb, ctx, ci, pad)
           ELSE LET one == IF style = "double"
                           THEN (IF MustEscapeDQ(c) \/ IsNl(c) THEN Esc(c, IF ch[i] = 0 THEN 1 ELSE ch[i])
@@ -129,8 +138,10 @@ Body(t, i, style, ch, eb, ctx, ci, pad) ==
                           ELSE IF style = "single" /\ c = "'" THEN <<"'", "'">> ELSE <<c>>
                IN ebk \o one \o Body(t, i + 1, style, ch, eb, ctx, ci, pad)
 
+\* "---" or "..." somewhere in the target: at column 0 of a continuation line it would be a document marker even inside quotes
+MarkerLike(t) == \E i \in 1..(Len(t) - 2) : t[i] = t[i + 1] /\ t[i + 1] = t[i + 2] /\ t[i] \in {"-", "."}
 Present(t, style, ch, eb, ctx, ci0, pad) ==
-  LET ci == IF style = "plain" /\ ctx.n = -1 THEN ci0 + 1 ELSE ci0       \* a top-level plain scalar is continued at column >= 1
+  LET ci == IF ctx.n = -1 /\ (style = "plain" \/ MarkerLike(t)) THEN ci0 + 1 ELSE ci0       \* a top-level plain scalar is continued at column >= 1
       b == Body(t, 1, style, ch, eb, ctx, ci, pad) IN
   IF style = "double" THEN <<"\"">> \o b \o <<"\"">> ELSE IF style = "single" THEN <<"'">> \o b \o <<"'">> ELSE b
 Representable(t, style, ctx) ==
